@@ -37,6 +37,11 @@ type fileSpec struct {
 	NoSync bool `json:"nosync"`
 	// LoopTicks: functions ("F", "T.M" or "(*T).M") whose for/range bodies get a vsync.LoopTick("<func>#<k>").
 	LoopTicks []string `json:"loopticks"`
+	// FieldWrites: regular expressions on the printed left-hand side of assignments / inc-dec statements (index,
+	// slice, star and parentheses stripped, e.g. `^q\.queue$`); a vsync.Point("w:<lhs>") is put before each
+	// matching statement. This keeps the read-modify-write windows of shared state interruptible whether or not
+	// the lock that is supposed to protect them is (still) taken.
+	FieldWrites []string `json:"fieldwrites"`
 }
 
 type spec struct {
@@ -109,6 +114,7 @@ type inst struct {
 	tmp      int
 	err      error
 	points   []*regexp.Regexp
+	fwrites  []*regexp.Regexp
 	chanName map[string]bool // identifiers / field names known to be channels (for range)
 	used     bool
 }
@@ -295,6 +301,13 @@ func instrument(path string, src []byte, fs *fileSpec) ([]byte, error) {
 		}
 		in.points = append(in.points, re)
 	}
+	for _, p := range fs.FieldWrites {
+		re, err := regexp.Compile(p)
+		if err != nil {
+			return nil, err
+		}
+		in.fwrites = append(in.fwrites, re)
+	}
 	for _, im := range f.Imports {
 		p, _ := strconv.Unquote(im.Path.Value)
 		if np, ok := fs.Imports[p]; ok {
@@ -410,7 +423,7 @@ func instrument(path string, src []byte, fs *fileSpec) ([]byte, error) {
 	if in.err != nil {
 		return nil, in.err
 	}
-	if in.used || len(fs.Probes) > 0 || len(fs.Points) > 0 || len(fs.LoopTicks) > 0 {
+	if in.used || len(fs.Probes) > 0 || len(fs.Points) > 0 || len(fs.LoopTicks) > 0 || len(fs.FieldWrites) > 0 {
 		astutil.AddNamedImport(fset, f, "vsync", "verif/vsync")
 	}
 	for _, pk := range []struct{ name, path string }{{in.pkgSync, "sync"}, {in.pkgTime, "time"}, {in.pkgErrg, "golang.org/x/sync/errgroup"}} {
@@ -623,8 +636,37 @@ func recvCallOperand(e ast.Expr) (ast.Expr, bool) {
 // insertPoints adds vsync.Point(site) before every simple statement that contains a call matching one of
 // the configured regular expressions.
 func (in *inst) insertPoints() {
-	if len(in.points) == 0 {
+	if len(in.points) == 0 && len(in.fwrites) == 0 {
 		return
+	}
+	lhsMatch := func(e ast.Expr) string {
+		for {
+			switch x := e.(type) {
+			case *ast.ParenExpr:
+				e = x.X
+				continue
+			case *ast.IndexExpr:
+				e = x.X
+				continue
+			case *ast.SliceExpr:
+				e = x.X
+				continue
+			case *ast.StarExpr:
+				e = x.X
+				continue
+			}
+			break
+		}
+		if _, ok := e.(*ast.SelectorExpr); !ok {
+			return ""
+		}
+		s := in.exprString(e)
+		for _, re := range in.fwrites {
+			if re.MatchString(s) {
+				return "w:" + s
+			}
+		}
+		return ""
 	}
 	matches := func(n ast.Node) string {
 		found := ""
@@ -634,6 +676,22 @@ func (in *inst) insertPoints() {
 			}
 			if _, isFn := x.(*ast.FuncLit); isFn {
 				return false
+			}
+			if len(in.fwrites) > 0 {
+				switch a := x.(type) {
+				case *ast.AssignStmt:
+					for _, l := range a.Lhs {
+						if m := lhsMatch(l); m != "" {
+							found = m
+							return false
+						}
+					}
+				case *ast.IncDecStmt:
+					if m := lhsMatch(a.X); m != "" {
+						found = m
+						return false
+					}
+				}
 			}
 			if c, ok := x.(*ast.CallExpr); ok {
 				s := in.exprString(c.Fun)
